@@ -117,14 +117,15 @@ Proof.
   induction es as [|e r IH]; intros s i; simpl; auto. apply hk_bind; [apply hk_ns_remove|].
   intros s1 H. rewrite IH. exact H.
 Qed.
-Lemma hk_add_all : forall es s i done, hk (fst (add_all c s i es done)) = hk s.
+Lemma hk_add_all : forall es s i o0 done, hk (fst (add_all c s i o0 es done)) = hk s.
 Proof.
-  induction es as [|e r IH]; intros s i done; simpl; auto.
+  induction es as [|e r IH]; intros s i o0 done; simpl; auto.
   assert (H := hk_ns_add s i e). destruct (ns_add c s i e) as [s1 o]. simpl in H. destruct o.
-  - rewrite IH. exact H.
-  - rewrite IH. exact H.
-  - assert (H2 := hk_remove_all (rev done) s1 i). destruct (remove_all c s1 i (rev done)) as [s2 o2].
-    simpl in H2. destruct o2; simpl; congruence.
+  - rewrite IH. destruct (order_of s1 i); [rewrite hk_set_order|]; exact H.
+  - rewrite IH. destruct (order_of s1 i); [rewrite hk_set_order|]; exact H.
+  - assert (H2 := hk_remove_all (rev done) (set_order s1 i o0) i).
+    destruct (remove_all c (set_order s1 i o0) i (rev done)) as [s2 o2].
+    simpl in H2. rewrite hk_set_order in H2. destruct o2; simpl; congruence.
 Qed.
 Lemma hk_set_setslice : forall s i a b es, hk (fst (set_setslice c s i a b es)) = hk s.
 Proof.
@@ -141,9 +142,32 @@ Proof.
   induction es as [|e r IH]; intros s i; simpl; auto. apply hk_bind; [apply hk_set_add|].
   intros s1 H. rewrite IH. exact H.
 Qed.
+Lemma hk_set_append : forall s i e, hk (fst (set_append c s i e)) = hk s.
+Proof. intros. unfold set_append. destruct (nth_error (sets s) i); auto. apply hk_set_insert. Qed.
+Lemma hk_remove_each : forall es s i, hk (fst (remove_each c s i es)) = hk s.
+Proof.
+  induction es as [|e r IH]; intros s i; simpl; auto. apply hk_bind; [apply hk_set_remove|].
+  intros s1 H. rewrite IH. exact H.
+Qed.
+Lemma hk_extend_loop : forall es s i added, hk (fst (extend_loop c s i es added)) = hk s.
+Proof.
+  induction es as [|e r IH]; intros s i added; simpl; auto.
+  assert (H := hk_set_append s i e). destruct (set_append c s i e) as [s1 o]. simpl in H. destruct o.
+  - rewrite IH. exact H.
+  - rewrite IH. exact H.
+  - assert (H2 := hk_remove_each added s1 i). destruct (remove_each c s1 i added) as [s2 o2].
+    simpl in H2. destruct o2; simpl; congruence.
+Qed.
+Lemma hk_set_extend : forall s i es, hk (fst (set_extend c s i es)) = hk s.
+Proof. intros. unfold set_extend. destruct (order_of s i); auto. apply hk_extend_loop. Qed.
 Lemma hk_set_value : forall s i es, hk (fst (set_value c s i es)) = hk s.
 Proof.
-  intros. unfold set_value. apply hk_bind; [apply hk_set_delslice|]. intros s1 H. rewrite hk_add_each. exact H.
+  intros. unfold set_value. destruct (order_of s i) as [old|]; auto.
+  apply hk_bind; [apply hk_set_delslice|]. intros s1 H.
+  assert (H2 := hk_set_extend s1 i es). destruct (set_extend c s1 i es) as [s2 o2]. simpl in H2.
+  destruct o2; simpl; try congruence.
+  assert (H3 := hk_set_extend s2 i old). destruct (set_extend c s2 i old) as [s3 o3]. simpl in H3.
+  destruct o3; simpl; congruence.
 Qed.
 
 Lemma hk_construct_one : forall s o ordered h items,
@@ -234,7 +258,7 @@ Proof.
   destruct p; simpl;
     try (rewrite hk_at_set; [exact H|intro; first [apply hk_set_add|apply hk_set_remove|apply hk_set_discard|apply hk_set_pop
          |apply hk_set_pop_at|apply hk_set_clear|apply hk_set_insert|apply hk_set_setitem|apply hk_set_setslice
-         |apply hk_set_delslice|apply hk_set_value]]).
+         |apply hk_set_delslice|apply hk_set_value|apply hk_set_extend]]).
   - destruct (hk_construct itemss s o ordered hk0) as [n Hn]. rewrite Hn. apply Forall_app. split; auto.
     apply Forall_forall. intros h X. apply repeat_spec in X. subst h. simpl in W. destruct hk0; auto. contradiction.
   - rewrite hk_rename. exact H.
